@@ -59,7 +59,10 @@ def handle (j : Json) : Except String Json := do
     let res := walk cfg bfs choose (sizeSpace ss) ss
     return Json.mkObj [
       ("model", jsonOfResult (fun l => toJson (l.map PC.name).toArray) res),
-      ("active", toJson ((activeSpace choose ss).map PC.name).toArray)]
+      ("active", toJson ((activeSpace choose ss).map PC.name).toArray),
+      -- hypotheses of c16_builder_visits_active that can be decided on the tree itself
+      ("uniqueNames", Json.bool (decide ((names (allSpace ss)).Nodup))),
+      ("nodeOK", Json.bool ((allSpace ss).all nodeOK))]
   | _ => throw s!"unknown op {op}"
 
 def main : IO Unit := serve handle
